@@ -35,9 +35,22 @@ func genC13(t *rapid.T) snapCase {
 	c.Names = genNames(t, false)
 	before := genOps(t, 30, map[int]int{opJoin: 6, opLeave: 2, opFailed: 2, opUpdate: 1, opReap: 1, opUser: 2,
 		opQuery: 2, opWitness: 2, opTick: 1, opAdvance: 1})
+	// (a second Leave() in the same life may be among the later ops)
 	after := genOps(t, 25, map[int]int{opJoin: 5, opLeave: 2, opFailed: 2, opUpdate: 1, opUser: 2,
-		opQuery: 2, opWitness: 3, opTick: 3, opAdvance: 1})
+		opQuery: 2, opWitness: 3, opTick: 3, opAdvance: 1, opGracefulLeave: 1})
 	c.Ops = append(append(before, hOp{K: opGracefulLeave}), after...)
+	// events still on their way through the snapshotter when the node shuts down:
+	// a burst handed over without waiting, immediately followed by the shutdown.
+	// Whether the snapshot goroutine meets them in its main loop, in its shutdown
+	// drain or not at all, they come after the leave and must not matter.
+	if rapid.IntRange(0, 2).Draw(t, "burst-into-shutdown") == 0 {
+		burst := genOps(t, 8, map[int]int{opJoin: 5, opFailed: 1, opLeave: 1, opUser: 1, opQuery: 1})
+		for i := range burst {
+			burst[i].NW = true
+		}
+		c.Ops = append(c.Ops, burst...)
+		c.UnpacedEnd = true
+	}
 	return c
 }
 
@@ -176,7 +189,12 @@ func bodyC13(c snapCase, x *vkit.Ctx) {
 			return
 		}
 	}
+	if !c.UnpacedEnd && !r.settle() {
+		x.Violationf("event-not-forwarded", "an event handed over without waiting was not forwarded")
+		return
+	}
 	r.closeSnap()
+	r.pending = 0
 	if err := r.openSnap(); err != nil {
 		x.Violationf("reopen-failed", "reopen after leave failed: %v", err)
 		return
@@ -195,6 +213,30 @@ func bodyC13(c snapCase, x *vkit.Ctx) {
 			c.Rejoin, aliveKey(rec.Alive), aliveKey(want), aliveKey(r.aliveAtLeave))
 		return
 	}
+	// "remembered across restarts": the restarted node shuts down again having
+	// learnt nothing; the restart after that one is in the same position
+	r.closeSnap()
+	if err := r.openSnap(); err != nil {
+		x.Violationf("reopen-failed", "second reopen after leave failed: %v", err)
+		return
+	}
+	if rec2 := readSnapshotter(r.snap); aliveKey(rec2.Alive) != aliveKey(want) {
+		x.Violationf("leave-not-remembered-at-second-restart", "rejoin_after_leave=%v: the first restart after the leave recovered %s (as expected); a second restart, with nothing learnt in between, recovers %s",
+			c.Rejoin, aliveKey(rec.Alive), aliveKey(rec2.Alive))
+		return
+	}
+	// the same through a real node: serf.Create on that snapshot (with the same
+	// rejoin-after-leave setting in its configuration) dials exactly that set
+	if c.SerfLayer && !c.RealFS {
+		r.alive = map[string]string{}
+		for k, v := range want {
+			r.alive[k] = v
+		}
+		if !serfLayer(r, x, false) {
+			return
+		}
+		x.Label("serf-layer-restart")
+	}
 	compAfter := 0
 	if r.fs != nil && renamesAtLeave >= 0 {
 		compAfter = r.fs.countKind("rename") - renamesAtLeave
@@ -202,6 +244,9 @@ func bodyC13(c snapCase, x *vkit.Ctx) {
 	x.Labelf("rejoin=%v", c.Rejoin)
 	if c.StallLeave && !c.RealFS {
 		x.Label("leave-during-slow-write")
+	}
+	if c.UnpacedEnd {
+		x.Label("burst-into-shutdown")
 	}
 	x.Labelf("compactions_after_leave=%d", min(compAfter, 3))
 	x.Labelf("member_events_after_leave=%d", min(memberAfter, 3))
